@@ -603,7 +603,10 @@ def oracle_stream(events, truth, res):
 
 # ------------------------------------------------------------------------------------------------ end to end
 E2E_OPTS = [["--flow"], ["--flow", "--no_mp_sync"], ["--flow", "--keep_prep"], ["--flow", "--disable_tb"],
-            ["--flow", "-F", "XsfM"], ["--flow", "--drop_globals"], ["--flow", "-t"]]
+            ["--flow", "-F", "XsfM"], ["--flow", "--drop_globals"], ["--flow", "-t"],
+            # pseudo options (taken out before the tool sees the list): @distinfo = rank files in object form with
+            # distributedInfo.rank and OS pids in the events; @D<n> = log level -D n (changes what is printed, nothing else)
+            ["--flow", "@distinfo"], ["--flow", "@D3"], ["--flow", "@D4", "@distinfo"], ["--flow", "@D2", "--keep_prep"]]
 
 
 def run_e2e(sc, opts, work):
@@ -613,7 +616,9 @@ def run_e2e(sc, opts, work):
     from common import e2e
     d = os.path.join(work, "e2e")
     shutil.rmtree(d, ignore_errors=True)
-    inp = collectives.write(sc, d)
+    inp = collectives.write(sc, d, dist_info="@distinfo" in opts)
+    dlevel = ([o[2:] for o in opts if o.startswith("@D")] or ["0"])[0]
+    opts = [o for o in opts if not o.startswith("@")]
     outp = os.path.join(d, "out.json")
     inflow = []
 
@@ -631,7 +636,7 @@ def run_e2e(sc, opts, work):
     saved = acel.processor.EventProcessor
     acel.processor.EventProcessor = Rec
     try:
-        res = e2e.run_inproc(["-i", inp, "-o", outp, "-D", "0", "--freq", str(sc.freq)] + list(opts), outp)
+        res = e2e.run_inproc(["-i", inp, "-o", outp, "-D", dlevel, "--freq", str(sc.freq)] + list(opts), outp)
     finally:
         acel.processor.EventProcessor = saved
     r = {"rc": res.rc, "exc": res.exc, "events": res.events, "inflow": inflow}
